@@ -124,7 +124,7 @@ def run_multi(case):
     for cfg in ('off', 'on', 'onref'):
         (disable_caching if cfg == 'off' else enable_caching)()
         IQ._cd.IndexedCache.retrieve = IQ._ref_retrieve if cfg == 'onref' else IQ._retrieve
-        objs = make_heap(case)
+        objs = IQ.with_wrappers(case, make_heap(case))
         IQ.LIST_MODE[0] = bool(case.get('list_items'))
         base = dict(case)
         b = None
